@@ -92,8 +92,13 @@ at the top-level directory.
    4 = storage grown inside the caller's workspace (a = 1 if the stack head passed the tail) */
 extern void slu_verif_event(int kind, int a, int b);
 #define SLU_VERIF_EVENT(k,a,b) slu_verif_event((k),(a),(b))
+/* lets a verification harness choose the initial capacities of lusup, ucol/usub and lsub in ?LUMemInit
+   (to walk every growth site through the exactly-full state) */
+extern void slu_verif_capacity(int_t *nzlumax, int_t *nzumax, int_t *nzlmax);
+#define SLU_VERIF_CAPACITY(a,b,c) slu_verif_capacity((a),(b),(c))
 #else
 #define SLU_VERIF_EVENT(k,a,b) ((void)0)
+#define SLU_VERIF_CAPACITY(a,b,c) ((void)0)
 #endif
 
 #define CHECK_MALLOC(where) {                 \
